@@ -15,10 +15,16 @@ CONSTANTS
   StrideOff = 0
   ReorderMode = "byweight"
   ZeroGuard = "guarded"
+  WSNum = 1
+  WSDen = 1
+  WScale <- MCWScale
+  SummarySource = "gathered"
   Gens = {1,2,3}
   Ordered = TRUE
   Export = FALSE
 INVARIANT EachSampleOnce
 INVARIANT SummariesEqualSerial
+INVARIANT SummaryMeanIsGlobal
+INVARIANT NoRankFails
 CONSTRAINT Emit
 CHECK_DEADLOCK FALSE
